@@ -1323,6 +1323,11 @@ impl Fs {
         // Clear all pending operations - they're lost on crash
         self.pending.clear();
 
+        // The page cache is memory: it does not survive the crash either.
+        if let Some(cache) = &mut self.page_cache {
+            cache.pages.clear();
+        }
+
         // Remove orphaned files/dirs/symlinks (those whose directory entries weren't synced)
         // This models POSIX behavior where fsync(file) makes inode durable but
         // fsync(dir) is needed to make the directory entry durable.
